@@ -81,8 +81,8 @@ class ReadBuf:
         v = self.read_string()
         if len(v) == 0:
             return 0
-        pad, f = (b'\xff', '>i') if ord(v[0:1]) & 0x80 != 0 else (b'\x00', '>I')
-        return self._parse_mpint(v, pad, f)
+        # The value is a big-endian two's complement integer.  (Unpacking it word by word with a signed format would mis-decode negative values longer than 4 bytes.)
+        return int.from_bytes(v, 'big', signed=True)
 
     def read_line(self) -> str:
         return self._buf.readline().rstrip().decode('utf-8', 'replace')
